@@ -88,6 +88,7 @@ type out struct {
 	methods   map[string][]string    // named type -> sorted method names (pointer receiver set)
 	nondet    [][3]string            // function, kind, detail
 	lockOps   map[string][]string
+	lockPaths map[string][][]string
 	initFuncs map[string][]string // package -> init skeleton tokens (flattened)
 }
 
@@ -325,6 +326,207 @@ func lockSeq(methods map[string]*ast.FuncDecl, name string, depth int) []string 
 	return append(seq, deferred...)
 }
 
+// ---- path-sensitive lock programs --------------------------------------------------------------
+// lockPaths enumerates the control paths of a KeyStore method (if/else, early returns, switch clauses,
+// loops taken zero times or once, intra-type calls expanded path by path) and returns, per path, the
+// sequence of mutex operations executed on it, deferred unlocks at the end.
+
+type lpath struct {
+	ops      []string
+	deferred []string
+	done     bool
+}
+
+func (p lpath) clone() lpath {
+	return lpath{ops: append([]string{}, p.ops...), deferred: append([]string{}, p.deferred...), done: p.done}
+}
+
+const maxLockPaths = 512
+
+func lpExpr(methods map[string]*ast.FuncDecl, n ast.Node, paths []lpath, depth int) []lpath {
+	if n == nil {
+		return paths
+	}
+	var calls []*ast.CallExpr
+	ast.Inspect(n, func(x ast.Node) bool {
+		switch c := x.(type) {
+		case *ast.FuncLit:
+			return false
+		case *ast.CallExpr:
+			calls = append(calls, c)
+		}
+		return true
+	})
+	for _, c := range calls {
+		s, ok := c.Fun.(*ast.SelectorExpr)
+		if !ok {
+			continue
+		}
+		switch s.Sel.Name {
+		case "Lock", "RLock", "Unlock", "RUnlock":
+			if in, ok := s.X.(*ast.SelectorExpr); ok && in.Sel.Name == "mtx" {
+				for i := range paths {
+					if !paths[i].done {
+						paths[i].ops = append(paths[i].ops, s.Sel.Name)
+					}
+				}
+			}
+		default:
+			if id, ok := s.X.(*ast.Ident); ok && id.Name == "ks" {
+				if _, ok := methods[s.Sel.Name]; ok && depth < 4 {
+					sub := lockPaths(methods, s.Sel.Name, depth+1)
+					var next []lpath
+					for _, p := range paths {
+						if p.done || len(sub) == 0 {
+							next = append(next, p)
+							continue
+						}
+						for _, sp := range sub {
+							q := p.clone()
+							q.ops = append(q.ops, sp...)
+							next = append(next, q)
+						}
+					}
+					paths = next
+				}
+			}
+		}
+	}
+	if len(paths) > maxLockPaths {
+		paths = paths[:maxLockPaths]
+	}
+	return paths
+}
+
+func lpFork(paths []lpath) []lpath {
+	out := make([]lpath, len(paths))
+	for i, p := range paths {
+		out[i] = p.clone()
+	}
+	return out
+}
+
+func lpStmts(methods map[string]*ast.FuncDecl, list []ast.Stmt, paths []lpath, depth int) []lpath {
+	for _, st := range list {
+		paths = lpStmt(methods, st, paths, depth)
+	}
+	return paths
+}
+
+func lpSplit(paths []lpath) (live, dead []lpath) {
+	for _, p := range paths {
+		if p.done {
+			dead = append(dead, p)
+		} else {
+			live = append(live, p)
+		}
+	}
+	return
+}
+
+func lpStmt(methods map[string]*ast.FuncDecl, st ast.Stmt, paths []lpath, depth int) []lpath {
+	live, dead := lpSplit(paths)
+	if len(live) == 0 || st == nil {
+		return paths
+	}
+	switch x := st.(type) {
+	case *ast.BlockStmt:
+		live = lpStmts(methods, x.List, live, depth)
+	case *ast.ReturnStmt:
+		live = lpExpr(methods, x, live, depth)
+		for i := range live {
+			live[i].done = true
+		}
+	case *ast.DeferStmt:
+		if s, ok := x.Call.Fun.(*ast.SelectorExpr); ok && (s.Sel.Name == "Unlock" || s.Sel.Name == "RUnlock") {
+			if in, ok := s.X.(*ast.SelectorExpr); ok && in.Sel.Name == "mtx" {
+				for i := range live {
+					live[i].deferred = append([]string{s.Sel.Name}, live[i].deferred...)
+				}
+			}
+		}
+	case *ast.IfStmt:
+		live = lpStmt(methods, x.Init, live, depth)
+		live = lpExpr(methods, x.Cond, live, depth)
+		thenP := lpStmt(methods, x.Body, lpFork(live), depth)
+		var elseP []lpath
+		if x.Else != nil {
+			elseP = lpStmt(methods, x.Else, lpFork(live), depth)
+		} else {
+			elseP = live
+		}
+		live = append(thenP, elseP...)
+	case *ast.ForStmt:
+		live = lpStmt(methods, x.Init, live, depth)
+		live = lpExpr(methods, x.Cond, live, depth)
+		once := lpStmt(methods, x.Body, lpFork(live), depth)
+		live = append(once, live...)
+	case *ast.RangeStmt:
+		live = lpExpr(methods, x.X, live, depth)
+		once := lpStmt(methods, x.Body, lpFork(live), depth)
+		live = append(once, live...)
+	case *ast.SwitchStmt:
+		live = lpStmt(methods, x.Init, live, depth)
+		live = lpExpr(methods, x.Tag, live, depth)
+		var outp []lpath
+		hasDefault := false
+		for _, cc := range x.Body.List {
+			c := cc.(*ast.CaseClause)
+			if c.List == nil {
+				hasDefault = true
+			}
+			outp = append(outp, lpStmts(methods, c.Body, lpFork(live), depth)...)
+		}
+		if !hasDefault {
+			outp = append(outp, live...)
+		}
+		live = outp
+	case *ast.TypeSwitchStmt:
+		var outp []lpath
+		for _, cc := range x.Body.List {
+			c := cc.(*ast.CaseClause)
+			outp = append(outp, lpStmts(methods, c.Body, lpFork(live), depth)...)
+		}
+		live = append(outp, live...)
+	case *ast.SelectStmt:
+		var outp []lpath
+		for _, cc := range x.Body.List {
+			c := cc.(*ast.CommClause)
+			outp = append(outp, lpStmts(methods, c.Body, lpFork(live), depth)...)
+		}
+		live = outp
+	case *ast.LabeledStmt:
+		live = lpStmt(methods, x.Stmt, live, depth)
+	default:
+		live = lpExpr(methods, st, live, depth)
+	}
+	res := append(dead, live...)
+	if len(res) > maxLockPaths {
+		res = res[:maxLockPaths]
+	}
+	return res
+}
+
+func lockPaths(methods map[string]*ast.FuncDecl, name string, depth int) [][]string {
+	fd := methods[name]
+	if fd == nil || fd.Body == nil {
+		return nil
+	}
+	paths := lpStmts(methods, fd.Body.List, []lpath{{}}, depth)
+	seen := map[string]bool{}
+	var outp [][]string
+	for _, p := range paths {
+		full := append(append([]string{}, p.ops...), p.deferred...)
+		k := strings.Join(full, ",")
+		if !seen[k] {
+			seen[k] = true
+			outp = append(outp, full)
+		}
+	}
+	sort.Slice(outp, func(i, j int) bool { return strings.Join(outp[i], ",") < strings.Join(outp[j], ",") })
+	return outp
+}
+
 func constStr(v constant.Value) string {
 	switch v.Kind() {
 	case constant.String:
@@ -379,7 +581,7 @@ func main() {
 		os.Exit(1)
 	}
 	sort.Slice(pkgs, func(i, j int) bool { return pkgs[i].PkgPath < pkgs[j].PkgPath })
-	o := &out{skel: map[string][]string{}, structs: map[string][][3]string{}, methods: map[string][]string{}, lockOps: map[string][]string{}, initFuncs: map[string][]string{}}
+	o := &out{skel: map[string][]string{}, structs: map[string][][3]string{}, methods: map[string][]string{}, lockOps: map[string][]string{}, lockPaths: map[string][][]string{}, initFuncs: map[string][]string{}}
 
 	// configuration tables of the app
 	var upgrades [][3][]string // name, added, deleted
@@ -643,6 +845,11 @@ func main() {
 			for _, m := range []string{"Save", "Load", "LoadByAddress"} {
 				o.lockOps[m] = lockSeq(methodsOfKS, m, 0)
 			}
+			for m := range methodsOfKS {
+				if ast.IsExported(m) {
+					o.lockPaths[m] = lockPaths(methodsOfKS, m, 0)
+				}
+			}
 		}
 	}
 	for _, u := range upgradeOrder {
@@ -738,6 +945,23 @@ func main() {
 			b.WriteString(", ")
 		}
 		fmt.Fprintf(&b, "(%s, %s)", leanStr(m), leanList(o.lockOps[m]))
+	}
+	b.WriteString("]\n\n")
+	b.WriteString("/-- per exported KeyStore method: the mutex operations on every control path (early returns, branches, loops 0/1 times, intra-type calls expanded), deferred unlocks last -/\ndef lockPaths : List (String × List (List String)) := [")
+	var lpk []string
+	for k := range o.lockPaths {
+		lpk = append(lpk, k)
+	}
+	sort.Strings(lpk)
+	for i, m := range lpk {
+		if i > 0 {
+			b.WriteString(", ")
+		}
+		var ps []string
+		for _, pth := range o.lockPaths[m] {
+			ps = append(ps, leanList(pth))
+		}
+		fmt.Fprintf(&b, "\n  (%s, [%s])", leanStr(m), strings.Join(ps, ", "))
 	}
 	b.WriteString("]\n\n")
 	var ipk []string
